@@ -64,6 +64,27 @@ theorem builtin_mem_entryPoints (b : Builtin) : Cls.builtin b ∈ entryPointClas
 theorem ownSpec_isSome (b : Builtin) (h : b ≠ .ArakawaC) : (ownSpec b).isSome = true := by
   cases b <;> first | (exact absurd rfl h) | decide
 
+theorem mem_filterMap_cls (eps : List EntryPoint) (c : Cls) :
+    c ∈ eps.filterMap EntryPoint.cls? ↔ EntryPoint.cls c ∈ eps := by
+  rw [List.mem_filterMap]
+  constructor
+  · rintro ⟨e, he, hc⟩
+    cases e with
+    | cls c' => simp [EntryPoint.cls?] at hc; subst hc; exact he
+    | loadError => simp [EntryPoint.cls?] at hc
+    | notConvention => simp [EntryPoint.cls?] at hc
+  · intro h; exact ⟨_, h, rfl⟩
+
+theorem filterMap_cls_sublist (eps : List EntryPoint) :
+    List.Sublist ((eps.filterMap EntryPoint.cls?).map EntryPoint.cls) eps := by
+  induction eps with
+  | nil => simp
+  | cons e es ih =>
+    cases e with
+    | cls c => simpa [List.filterMap_cons, EntryPoint.cls?] using ih.cons_cons (EntryPoint.cls c)
+    | loadError => simpa [List.filterMap_cons, EntryPoint.cls?] using ih.cons _
+    | notConvention => simpa [List.filterMap_cons, EntryPoint.cls?] using ih.cons _
+
 /-- `'needle' in hay` on character lists is the infix relation -/
 theorem containsSubL_iff (needle : List Char) : ∀ (hay : List Char),
     containsSubL needle hay = true ↔ ∃ s t, hay = s ++ needle ++ t := by
